@@ -378,8 +378,18 @@ impl<'u> Tr<'u> {
                 (Some(_), None) => parts.push("_".into()),
                 (None, None) => {}
                 (None, Some(p)) => {
-                    // omitted field: whatever it binds cannot be used
-                    self.poison_pattern(p, env, &format!("bound to an omitted field of {en}::{}", v.name), sp)?;
+                    // omitted field: whatever it binds cannot be used (a probe may name it as its receiver: then the
+                    // binding must carry the field's own name, so that the receiver text says which field is asked)
+                    let renamed = match (p, &f.name) {
+                        (Pat::Ident(i), Some(fname)) => i.ident != fname.as_str(),
+                        _ => false,
+                    };
+                    let why = if renamed {
+                        format!("bound under another name to the omitted field `{}` of {en}::{}", f.name.clone().unwrap_or_default(), v.name)
+                    } else {
+                        format!("bound to an omitted field of {en}::{}", v.name)
+                    };
+                    self.poison_pattern(p, env, &why, sp)?;
                 }
             }
         }
@@ -898,6 +908,15 @@ impl<'u> Tr<'u> {
             };
             if !hit {
                 continue;
+            }
+            if let Expr::Path(rp) = strip_refs(&m.receiver) {
+                if let Some(b) = rp.path.get_ident().and_then(|i| env.lookup(&i.to_string())) {
+                    if let Some(why) = &b.poisoned {
+                        if why.starts_with("bound under another name") {
+                            return self.err(sp, format!("the receiver `{recv_text}` of the probe `{}` is {why}", p.name));
+                        }
+                    }
+                }
             }
             let vt: Type = match syn::parse_str(&p.ty) {
                 Ok(t) => t,
